@@ -11,6 +11,8 @@ package vs
 import (
 	"context"
 	"fmt"
+	"os"
+	"runtime"
 	"runtime/debug"
 	"runtime/pprof"
 	"strconv"
@@ -46,12 +48,46 @@ func watchdog() {
 			if t != nil {
 				id, op = t.ID, t.OpIndex
 			}
+			if st := nativelyBlocked(); st != "" {
+				// the running thread is not computing: it waits on a primitive the rewriter does not redirect (a
+				// channel operation, a select, ...) which only another controlled thread could complete - but
+				// that thread never gets the token. This is a limit of the HARNESS, not a finding: inconclusive.
+				fmt.Printf("INCONCLUSIVE (harness limit): controlled thread %d (op %d) is blocked in the Go runtime [%s] on a primitive the scheduler does not control; this implementation cannot be scheduled cooperatively. No verdict.\n", id, op, st)
+				os.Exit(3)
+			}
 			s.fail = &Failure{Kind: "no-progress", Detail: fmt.Sprintf("thread %d (op %d) has been executing for %d s of wall-clock time without reaching any scheduling point (after %d points in total): a loop without synchronisation that does not terminate", id, op, StallSeconds, s.total)}
 			s.poisoned = true
 			close(s.stallCh)
 			cur, still = nil, 0
 		}
 	}
+}
+
+// nativelyBlocked inspects the goroutines of the process: if no goroutine that runs a controlled thread is
+// running or runnable, the stalled thread is parked inside the Go runtime; its wait state is returned.
+func nativelyBlocked() string {
+	buf := make([]byte, 4<<20)
+	buf = buf[:runtime.Stack(buf, true)]
+	state := ""
+	for _, g := range strings.Split(string(buf), "\n\n") {
+		if !strings.Contains(g, "zzverif/vs.(*Sched).body") {
+			continue
+		}
+		i, j := strings.Index(g, "["), strings.Index(g, "]")
+		if i < 0 || j < i {
+			continue
+		}
+		st := g[i+1 : j]
+		if strings.HasPrefix(st, "running") || strings.HasPrefix(st, "runnable") {
+			return "" // somebody is computing: a genuine loop
+		}
+		// parked controlled threads wait for their token inside the scheduler: skip those
+		if strings.Contains(g, "zzverif/vs.(*Sched).transfer") || strings.Contains(g, "zzverif/vs.Block") || strings.Contains(g, "zzverif/vs.CondBlock") || !strings.Contains(g, "github.com/fufuok/cache.") && !strings.Contains(g, "internal/xsync.") {
+			continue
+		}
+		state = st
+	}
+	return state
 }
 
 // ForeignCalls counts shim calls made by goroutines the scheduler does not own while a run was active
